@@ -746,10 +746,15 @@ func (b *Block) getNumVoxels(labelIndex uint32) (labelVoxels uint64) {
 					}
 					indexPos++
 				}
+				bits := int(bitsFor(numSBLabels))
 				if !found {
+					// skip over this sub-block's packed values, which start and end on byte boundaries.
+					bitpos += int(subBlockNumVoxels) * bits
+					if bitpos%8 != 0 {
+						bitpos += 8 - (bitpos % 8)
+					}
 					continue
 				}
-				bits := int(bitsFor(numSBLabels))
 
 				var x, y, z int32
 				for z = 0; z < SubBlockSize; z++ {
